@@ -40,7 +40,11 @@ FLOORS = {}
 def tasks(tier):
     return [("stress formulas", "run_stress", {}), ("cell data", "run_celldata", {}), ("force+moment", "run_force", {}), ("topoints", "run_topoints", {}),
             ("project", "run_project", {}), ("extrapolate identity", "run_extrapolate", {}),
-            ("extrapolate quad", "run_extrapolate_source", dict(cell_type="quad")), ("extrapolate hexahedron", "run_extrapolate_source", dict(cell_type="hexahedron"))]
+            ("extrapolate quad", "run_extrapolate_source", dict(cell_type="quad")), ("extrapolate hexahedron", "run_extrapolate_source", dict(cell_type="hexahedron")),
+            # extrapolate / topoints identify the q-th quadrature point with the q-th point of the cell: the permuted Gauss rules list their points
+            # in the order of the matching element's nodes
+            ("rule point order vs element nodes", "run_included", dict(modname="c05", fname="run_perm", kwargs=dict(tier=tier), oid="C19.O8", select_oid="C05.O5",
+                                                                      why="shifting quadrature-point values to the points relies on the rule's points being ordered like the element's nodes"))]
 
 
 def run_stress(col):
@@ -375,3 +379,8 @@ def run_extrapolate_source(col, cell_type):
                           "result[p, i, j, ...] == mean over the cells attached to p of sum_q h_q(1/g_a) values[i, j, ..., q, c] (a: local number of p in c; mean=True: the "
                           "weighted cell mean instead); average=False: one row per cell corner, unaveraged", chk)
     finish_info(col, it)
+
+def run_included(col, modname, fname, kwargs, oid, why, select_oid=None):
+    from ..common import include
+
+    include(col, modname, fname, kwargs, oid, why, select_oid=select_oid)
